@@ -233,3 +233,12 @@ Proof.
   pose proof (run_sim ms) as R. destruct (code_run (map erase ms)); [|exact R|exact R].
   destruct R as (r & H1 & H2 & _). exists r. auto.
 Qed.
+
+(* the classifier of class U1 is the Undecided verdict of the (decidable, computable) spec *)
+Lemma u1_b_spec (l : list (stmt value)) : u1_b l = true <-> spec_run l = Undecided.
+Proof. unfold u1_b. destruct (spec_run l); split; intro H; try discriminate; reflexivity. Qed.
+
+(* whitespace / comments between statements only move st_trailing, which the invariant ignores
+   (for users of mstep_sim / mfold_sim that interleave on_ws, i.e. the whole-document proofs) *)
+Lemma Inv_on_ws st S sp : Inv st S -> Inv (on_ws st sp) S.
+Proof. destruct S as [T cp]. unfold Inv, on_ws. cbn [st_path st_root st_current st_is_array]. exact (fun H => H). Qed.
